@@ -28,7 +28,8 @@ GEN_FILES = ["GenModes"]
 DRIVERS = ["modes"]
 THEOREMS = ["C13_same_events", "C13_same_events_exact", "C13_side_state_cleared", "C13_sequences", "C13_no_double",
             "C13_same_events_unconditional_refuted", "C13_side_state_leak_refuted", "C13_sequences_leak_refuted",
-            "C13_known_classes_refuted", "C13_nonvacuous"]
+            "C13_known_classes_refuted", "C13_pull_pending_refuted", "C13_pull_noop_autostash", "C13_pull_real_autostash",
+            "C13_nonvacuous"]
 CLAIM = {
     "text": "Partial proof. Both front ends are modelled as translators of one command execution into the events that reach "
             "the shared core (Model/Modes.v: wrap_events from git_handlers.rs + hooks/*.rs; hook_events following "
@@ -235,7 +236,7 @@ class GWorld(World):
 
     def worktree_files(self):
         # files under up/ belong to the upstream: local edits there would make every pull conflict
-        return [p for p in super().worktree_files() if not p.startswith("up/")]
+        return [p for p in super().worktree_files() if not p.startswith(("up/", "dup/"))]
 
     # ---- detached HEAD
     def op_detach(self):
@@ -325,6 +326,48 @@ class GWorld(World):
         self.write(path, old + self.fresh("H") + "\n")
         self.realgit("-C", "../up", "-c", "core.hooksPath=/dev/null", "add", "-A")
         self.realgit("-C", "../up", "-c", "core.hooksPath=/dev/null", "commit", "-q", "-m", f"up{self.up_n}")
+
+    def upstream_and_local_duplicate(self):
+        """the same patch is committed upstream (by a person, plain git) and locally: `pull --rebase` skips the local one"""
+        self.up_n += 1
+        rel = f"dup/d{self.up_n}.txt"
+        text = self.fresh("H") + "\n"
+        self.write("../up/" + rel, text)
+        self.realgit("-C", "../up", "-c", "core.hooksPath=/dev/null", "add", "-A")
+        self.realgit("-C", "../up", "-c", "core.hooksPath=/dev/null", "commit", "-q", "-m", f"updup{self.up_n}")
+        self.write(rel, text)
+        self.realgit("add", "--", rel)
+        rc, _, _ = self.git("commit", "-q", "-m", f"localdup{self.up_n}")
+        return rc
+
+    def op_pull_shapes(self):
+        """pull --rebase where the local commits are really rebased / all skipped as duplicates / partly skipped,
+        with or without pending (autostashed or untracked) agent edits"""
+        if not self.has_remote or self.cur != "main":
+            return None
+        r = self.r
+        if not self._clean():
+            self.op_commit()
+        shape = r.pick(["real", "noop", "partial", "noop", "partial"])
+        self.upstream_commit()
+        if shape in ("noop", "partial"):
+            self.upstream_and_local_duplicate()
+        if shape in ("real", "partial"):
+            self.op_edit()
+            self.op_commit()
+        pending = r.pick(["tracked", "tracked", "untracked", "none"])
+        args = ["pull", "--rebase", "-q"]
+        if pending == "tracked":
+            files = [p for p in self.tracked() if not p.startswith(("up/", "dup/"))]
+            if files:
+                self.op_edit(actor=r.pick(["s1", "s2"]), path=r.pick(files))
+                args.append("--autostash")
+        elif pending == "untracked":
+            self.op_edit(actor=r.pick(["s1", "s2"]), path=f"new{self.counter}.txt")
+        rc, _, _ = self.git(*args, env_extra={"GIT_EDITOR": "true"})
+        state = self._finish_sequencer("rebase", rc) if rc != 0 else "done"
+        self.trace.append(("pull_shape", shape, pending, rc, state))
+        return rc
 
     def op_pull(self, rebase):
         if not self.has_remote or self.cur != "main":
@@ -535,7 +578,8 @@ STREAMS = {
     "rewrite": [(8, "edit"), (6, "commit"), (2, "branch"), (3, "switch"), (4, "rebase"), (3, "rebase_i"),
                 (4, "cherry_pick"), (1, "amend"), (1, "merge_squash"), (1, "detach")],
     # pull (needs the sibling upstream)
-    "pull": [(8, "edit"), (5, "commit"), (3, "pull_ff"), (3, "pull_rebase"), (1, "amend"), (1, "stash"), (1, "stash_pop")],
+    "pull": [(8, "edit"), (5, "commit"), (3, "pull_ff"), (2, "pull_rebase"), (4, "pull_shape"), (1, "amend"), (1, "stash"),
+             (1, "stash_pop")],
 }
 
 
@@ -582,6 +626,8 @@ def run_ops(w, r, stream, n_ops):
             w.op_pull(True)
         elif op == "detach":
             w.op_detach()
+        elif op == "pull_shape":
+            w.op_pull_shapes()
     # materialise whatever is pending on the current branch
     w.op_edit(actor=r.pick(["s1", "s2"]))
     w.op_commit("final")
@@ -612,6 +658,28 @@ def _rev(sim, spec):
 
 def _revlist(sim, rng):
     return [x for x in _q(sim, "rev-list", "--reverse", rng).split("\n") if x]
+
+
+def pending_ai_files(sim, head):
+    """files for which the working log of `head` holds agent attribution (INITIAL entries, entries of non-human checkpoints)"""
+    if not head:
+        return []
+    d = os.path.join(sim.repo, ".git", "ai", "working_logs", head)
+    out = set()
+    try:
+        ini = json.load(open(os.path.join(d, "INITIAL"))).get("files", {})
+        out |= {f for f, ls in ini.items() if ls}
+    except Exception:
+        pass
+    try:
+        for line in open(os.path.join(d, "checkpoints.jsonl")):
+            if line.strip():
+                cp = json.loads(line)
+                if cp.get("kind") != "Human":
+                    out |= {e["file"] for e in cp.get("entries", [])}
+    except Exception:
+        pass
+    return sorted(out)
 
 
 def rebase_mappings(sim, orig, new, onto):
@@ -652,6 +720,7 @@ class Observer:
             b["stash_top0"] = _rev(sim, "refs/stash")
         if cmd in ("rebase", "pull"):
             b["ip0"] = _in_progress(sim, "rebase")
+            b["dirty_tracked0"] = bool(_q(sim, "status", "--porcelain", "--untracked-files=no").strip())
         if cmd == "cherry-pick":
             b["ip0"] = _in_progress(sim, "cherry-pick")
             srcs = []          # parse_cherry_pick_commits (cherry_pick_hooks.rs): ranges are expanded oldest first
@@ -701,6 +770,7 @@ class Observer:
             rec["ip1"] = _in_progress(sim, "rebase")
             if cmd == "pull":
                 rec["upstream1"] = _rev(sim, "@{upstream}")
+                rec["pending1"] = pending_ai_files(sim, rec["head1"])
         if cmd == "cherry-pick":
             rec["ip1"] = _in_progress(sim, "cherry-pick")
         self.steps.append(rec)
@@ -763,6 +833,13 @@ def scenario(args):
         res["same_ids"] = snaps["W"]["branches"] == snaps["H"]["branches"]
         res["n_commits"] = len(snaps["W"]["notes"])
         res["diffs"] = compare(snaps["W"], snaps["H"])
+        # pending attribution right after every pull: a total loss on one side only is a difference of its own
+        for sw_, sh_ in zip(out["W"][1].steps, out["H"][1].steps):
+            if sw_["args"][:1] == ["pull"] and "pending1" in sw_ and "pending1" in sh_ \
+                    and bool(sw_["pending1"]) != bool(sh_["pending1"]):
+                res["diffs"].append({"kind": "note", "branch": "(working log)", "commit": sw_["head1"],
+                                     "what": f"pending attribution after `git {' '.join(sw_['args'][:3])}`: wrapper "
+                                             f"{sw_['pending1']} hooks {sh_['pending1']}"})
         if "B" in out:
             jb = [shape_of(e) for e in out["B"][0].journal()]
             jw = [shape_of(e) for e in out["W"][0].journal()]
@@ -844,6 +921,13 @@ KNOWN_DOC = {
     "C13-K10": "rebase started while a working log exists for HEAD (e.g. an untracked file written by an agent): in hooks mode "
                "the post-checkout hook of the rebase's first checkout renames the working log onto the upstream commit, the "
                "RebaseComplete migration then finds nothing — the pending attribution is stranded",
+    "C13-K12": "pull --rebase that rewrites no commit (every local commit skipped as already upstream, or none) while a working "
+               "log is pending without autostash (an untracked agent file): hooks mode renames the working log to the new "
+               "HEAD, the wrapper does nothing and the pending attribution is stranded",
+    "C13-K13": "pull --rebase --autostash with pending attribution: the wrapper re-derives it as INITIAL line claims "
+               "(restore_stashed_va), hooks mode moves the checkpoints verbatim (rename_working_log); when the file is then "
+               "edited without a checkpoint (a person types in it) before it is committed, the two representations "
+               "attribute different lines",
     "C13-K11": "reset / stash with work-tree edits that no checkpoint has seen (a person typed above the agent's lines): only the "
                "wrapper runs the pre-command human checkpoint, so only there the pending line numbers are shifted",
 }
@@ -900,7 +984,7 @@ def classify(res):
                           (cmd == "reset" and any(len(x) >= 3 and x[2] == "HEAD" for x in h["stdin"])))):
                     hit("C13-K1", f"step {i} `git {' '.join(a[:3])}`: {nm} fires while the mask is on")
         # ---- K2
-        for h in seg["hooks"]:
+        for h in (seg["hooks"] if cmd == "rebase" else []):
             if h["name"] == "post-rewrite" and h["args"][:1] == ["rebase"]:
                 olds = [x[0] for x in h["stdin"] if len(x) >= 2]
                 news = [x[1] for x in h["stdin"] if len(x) >= 2]
@@ -941,6 +1025,18 @@ def classify(res):
             co = [h for h in seg["hooks"] if h["name"] == "post-checkout"]
             if co and co[0]["args"][:2] and co[0]["args"][0] != co[0]["args"][1]:
                 hit("C13-K10", f"step {i}: rebase starts with a working log for HEAD")
+        # ---- K12
+        if cmd == "pull" and "pre-rebase" in names and st["rc"] == 0 and st.get("wl0") and st["head0"] != st["head1"] \
+                and not any(h["name"] == "post-rewrite" and h["args"][:1] == ["rebase"] for h in seg["hooks"]) \
+                and not ("--autostash" in a and st.get("dirty_tracked0")):
+            hit("C13-K12", f"step {i}: pull --rebase rewrote nothing, a working log is pending, no autostash")
+        # ---- K13
+        if cmd == "pull" and "--autostash" in a and st.get("dirty_tracked0") and st.get("wl0") and st["rc"] == 0 \
+                and st["head0"] != st["head1"] and st.get("pending1"):
+            nxt = [s2 for s2 in steps[i + 1:n] if s2["args"][:1] == ["commit"] and s2["rc"] == 0][:1]
+            if nxt and set(unck_at.get(nxt[0]["k"], [])) & set(st["pending1"]):
+                hit("C13-K13", f"step {i}: autostash pull carried pending attribution of {st['pending1'][:2]}; the file is then "
+                               f"edited without a checkpoint before the next commit")
         # ---- K11
         if ((cmd == "reset" and "--hard" not in a) or (cmd == "stash" and (len(a) == 1 or a[1] in ("push", "drop")))) \
                 and unck_at.get(st["k"]):
@@ -1106,6 +1202,8 @@ def model_case(i, st, seg, journal_w, ids, sim_maps):
                       "co_head": ids(up),
                       "uptodate": _b(not fired_pre), "picks": [[ids(o), ids(n)] for o, n in pairs],
                       "origs": ids.lst(os_), "news": ids.lst(ns_), "wl_pending": _b(st.get("wl0")),
+                      "autostash_va": _b("--autostash" in a and st.get("dirty_tracked0") and st.get("wl0")),
+                      "upstream_touches_pending": 0,       # by construction: upstream commits touch up/ and dup/ only
                       "noise": [h["name"] for h in hooks if id(h) not in skip and h["name"] != "pre-rebase" and h["rb"]
                                 and not (h["name"] == "post-rewrite" and h["args"][:1] == ["rebase"])]})
         else:
@@ -1549,6 +1647,39 @@ def t_pull_ff(w):
     _commit(w, "re")
 
 
+def _pull_shape(shape, pending):
+    def f(w):
+        w.setup_remote()
+        w.upstream_commit()
+        if shape in ("noop", "partial"):
+            w.upstream_and_local_duplicate()
+        if shape in ("real", "partial"):
+            _ai(w, "c.txt", ["C1", "C2"], "s2")
+            _commit(w, "l1")
+        args = ["pull", "--rebase", "-q"]
+        if pending == "autostash":
+            _ai(w, "a.txt", A0 + ["AI1", "AI2"])
+            args.append("--autostash")
+        elif pending == "untracked":
+            _ai(w, "n.txt", ["N1", "N2"])
+        w.git(*args, env_extra=E)
+        _commit(w, "local-after")
+        _after(w)
+    f.__name__ = f"t_pull_{shape}_{pending}"
+    return f
+
+
+def t_pull_autostash_then_human(w):
+    w.setup_remote()
+    w.upstream_commit()
+    _ai(w, "c.txt", ["C1", "C2"], "s2")
+    _commit(w, "l1")
+    _ai(w, "a.txt", ["a1", "a2 changed by the agent", "a3"])      # pending: the agent rewrote line 2
+    w.git("pull", "--rebase", "-q", "--autostash", env_extra=E)
+    w.write("a.txt", _txt(["TOP1", "TOP2", "a1", "a2 changed by the agent", "a3"]))   # a person types above, no checkpoint
+    _commit(w, "local-after")
+
+
 def t_pull_rebase(w):
     w.setup_remote()
     w.upstream_commit()
@@ -1608,6 +1739,14 @@ TEMPLATES = {
     "rebase_edit_continue": (t_stopped_rebase_reset, ()),
     "pull_ff": (t_pull_ff, ()),
     "pull_rebase": (t_pull_rebase, ()),
+    "pull_real_autostash": (_pull_shape("real", "autostash"), ()),
+    "pull_noop_autostash": (_pull_shape("noop", "autostash"), ()),
+    "pull_partial_autostash": (_pull_shape("partial", "autostash"), ()),
+    "pull_noop_clean": (_pull_shape("noop", "none"), ()),
+    "pull_autostash_then_human": (t_pull_autostash_then_human, ("C13-K13",)),
+    "pull_real_untracked": (_pull_shape("real", "untracked"), ()),
+    "pull_noop_untracked": (_pull_shape("noop", "untracked"), ("C13-K12",)),
+    "pull_partial_untracked": (_pull_shape("partial", "untracked"), ()),
 }
 
 
